@@ -5,7 +5,6 @@ import Generated.Tables
 
 `pyval render <linelen> <maxlines> <lb> <expr…>` → `ok <is_complete> <u:text>` | `raise <Exc>`
 `pyval parse <doc…>`                              → `ok <u:flattened text> <ast…>` | `none <u:text>`
-`pyval str <u:s>`                                  → `ok <u:escaped> <u:unescaped-again or ->`
 
 Expressions in prefix notation:
   `n <u:>` name · `d <k> <u:>×k` dotted · `i <hex>` int · `f <u:>` float/complex text · `s <u:>` str ·
